@@ -202,7 +202,8 @@ def malformed_cases(draw, tier):
                                  "row_vector", "float_integral", "valid_batch", "int32", "empty_list", "uint_descending",
                                  "flat_multiple", "narrow_dtype_overflow", "pandas_float", "pandas_int", "pandas_bool",
                                  "series_float", "timedelta64", "datetime64", "matrix", "masked_none_hidden", "masked_hides_invalid",
-                                 "longlong", "fortran_order", "strided_view", "read_only"]))
+                                 "longlong", "fortran_order", "strided_view", "read_only",
+                                 "zero_rows_float", "zero_rows_wrong_width", "zero_rows_object_frame"]))
     case = {"scorer": name, "n": n, "p": p, "kind": kind}
     rows = [sorted(draw(st.lists(st.integers(-2, n + 2), min_size=k, max_size=k))) for _ in range(draw(st.integers(1, 5)))]
     case["rows"] = rows
@@ -296,6 +297,14 @@ def check_malformed(case):
         mask = np.zeros(base.shape, dtype=bool)
         mask[0, 0] = True
         arg = np.ma.MaskedArray(base, mask=mask)
+    elif kind == "zero_rows_float":  # what np.column_stack(([], [])) gives
+        arg = np.empty((0, k), dtype=float)
+    elif kind == "zero_rows_wrong_width":
+        arg = np.empty((0, k + 1 if k < 4 else 2), dtype=np.int64)
+    elif kind == "zero_rows_object_frame":  # an empty segments frame
+        import pandas as pd
+
+        arg = pd.DataFrame(np.empty((0, k), dtype=object))
     elif kind == "float":
         arg = np.asarray(valid_pool[:2], dtype=float) + 0.5
     elif kind == "float_integral":
@@ -562,7 +571,43 @@ def check_after_error(case):
     return {"nontrivial": provoked == "RuntimeError", "weight": n_checked, "classes": [f"route={route}", f"earlier={provoked[:12]}"]}
 
 
+def long_narrow_cells(tier):
+    for name in ("CUSUM", "L2Cost", "ChangeScore(L2Cost)", "L2Saving", "GaussianVarCost", "LocalAnomalyScore(L2Cost)"):
+        for n in ((100_000,) if tier == "quick" else (60_000, 100_000, 1_000_000)):
+            yield {"scorer": name, "n": n}
+
+
+def check_long_narrow(case):
+    """Valid cuts on a series of 10^5..10^6 samples, given as int32 / uint32 / int64 / uint64: products of interval lengths
+    exceed 2^31 - every dtype must give the value of the int64 cuts, and that value the definition."""
+    name, n = case["scorer"], case["n"]
+    k = width(name)
+    rng = np.random.Generator(np.random.PCG64(n + len(name)))
+    X = rng.standard_normal((n, 1))
+    X[n // 2:] += 0.05
+    scorer = build_scorer(name).fit(X)
+    rows = {2: [[0, n // 2], [0, n], [n // 10, n - 7]], 3: [[0, n // 2, n], [0, 50_000, n], [7, n // 3, n - 5]],
+            4: [[0, n // 3, n // 2, n], [5, 50_000, 50_010, n - 1]]}[k]
+    base = np.asarray(rows, dtype=np.int64)
+    want = np.asarray(scorer.evaluate(base), dtype=float)
+    for dt in (np.int32, np.uint32, np.uint64, np.longlong):
+        outcome, out, err = evaluate_outcome(scorer, base.astype(dt))
+        if outcome != "value" or not np.allclose(np.asarray(out, dtype=float), want, rtol=1e-9, atol=1e-9, equal_nan=False):
+            raise Violation(f"valid cuts on a long series given as {np.dtype(dt).name} are treated differently from the same int64 cuts",
+                            scorer=name, n=n, outcome=outcome, int64=want.tolist(), other=np.asarray(out).tolist() if outcome == "value" else err[:200])
+    for r, w in zip(rows, want):
+        d = expected_value(name, X, r)
+        if d is not None and not np.all(np.abs(w - d) <= 1e-6 * (1 + np.abs(d)) + 1e-9 * n):
+            raise Violation("cut on a long series is not scored according to the definition", scorer=name, cut=r, got=w.tolist(),
+                            expected=np.asarray(d).tolist())
+    return {"nontrivial": True, "classes": [f"scorer={name}", f"n={n}"]}
+
+
 FACETS = [
+    Facet(name="long_series_cut_dtypes", kind="enumerate", enumerate=long_narrow_cells, check=check_long_narrow, exhaustive=True, time_limit=300,
+          rule=("six scorers on a seeded series of 100000 samples (thorough: 60000 .. 10^6): valid cuts over tens of thousands of samples given as "
+                "int32 / uint32 / uint64 / long long must give the value of the int64 cuts, which must match the definition; every cell non-trivial"),
+          shards_quick=6, shards_thorough=9),
     Facet(name="after_an_error", kind="enumerate", enumerate=after_error_cells, check=check_after_error, exhaustive=True,
           rule=("covariance-based scorers (cost, change score, local score, saving) that have just raised the documented not-positive-definite error "
                 "on a flat-lined channel - in a direct evaluate, or inside PELT / MovingWindow / CircularBinSeg / CAPA running on the user's own scorer "
